@@ -7,7 +7,8 @@ from typing import Dict, List, Optional, Tuple
 from ..cfg import cfg_of
 from ..model import AnalysisError, ClassInfo, EnumMember, FuncInfo, UNKNOWN, is_self_attr, norm, unparse, walk_shallow
 from ..report import Check
-from ..rules import branch_reaches_exit, calls_in_func, last_name
+from ..cfg import no_exc
+from ..rules import Resolver, branch_reaches_exit, calls_in_func, dispatch_sites, last_name
 from . import common
 from .sym import auto_persist_set, saved_loaded_keys
 
@@ -125,47 +126,35 @@ def run(chk: Check) -> None:
     running = prog.cls('process_states.Running')
     ac = prog.func('process_states.Running._action_command')
     subject = ac.params[1] if len(ac.params) > 1 else 'command'
-    branches, else_body = ladder(ac, subject)
-    chk.need(bool(branches), 'no isinstance ladder over the command found in Running._action_command')
-    chk.floor('DISP-command', len(branches), 2)
-
+    ffa = chk.ctx.facts.analyse(ac)
+    sites = dispatch_sites(ffa, lambda c: calls.state_ctor_label(ac, c) is not None)
+    if not sites:
+        chk.ob('DISP-command', ac, False, 'no state is built from the command in Running._action_command', kind='no-dispatch')
     cmd_base = prog.cls('process_states.Command')
     universe = [c for c in prog.subclasses(cmd_base) if '__init__' in c.methods]
     covered: Dict[str, Tuple] = {}
     running_allowed = common.allowed_of(prog, running)
     by_label = common.labelled_states(prog)
-    for cls_expr, body, ifnode in branches:
-        c = prog.resolve_class(ac.module, cls_expr)
-        chk.need(c is not None, f'cannot resolve command class {unparse(cls_expr)}')
-        # the state built in this branch
-        built = []
-        for s in body:
-            for n in walk_shallow(s):
-                if isinstance(n, ast.Call):
-                    lbl = calls.state_ctor_label(ac, n)
-                    if lbl is not None:
-                        built.append((lbl, n))
-        ok_one = len(built) == 1 and isinstance(built[0][0], EnumMember)
-        chk.ob('DISP-command', ac, ok_one, f'branch for {c.name} builds exactly one state with a constant label '
-               f'({[repr(b[0]) for b in built]})', node=ifnode.test, kind='branch-builds-state')
+    for node, call, pins in sites:
+        classes = pins.get(f'isinstance:{subject}', set())
+        lbl = calls.state_ctor_label(ac, call)
+        ok_one = len(classes) == 1 and isinstance(lbl, EnumMember)
+        chk.ob('DISP-command', ac, ok_one, f'this state is built for exactly one command class ({sorted(classes)}) with a constant label ({lbl!r})', node=call,
+               kind='branch-builds-state')
         if not ok_one:
             continue
-        lbl, call = built[0]
+        c = prog.cls(next(iter(classes)))
         covered[c.name] = (lbl.member, call)
         want = EXPECT.get(c.name)
         if want is not None:
-            chk.ob('DISP-command', ac, lbl.member == want, f'{c.name} -> {lbl.member} (property: {want})', node=call,
-                   kind='command-to-label')
-        chk.ob('DISP-command', ac, lbl.member in running_allowed, f'{lbl.member} is in Running.ALLOWED', node=call,
-               kind='label-allowed-from-running')
-        # the produced state must be what this branch returns (possibly via a local)
+            chk.ob('DISP-command', ac, lbl.member == want, f'{c.name} -> {lbl.member} (property: {want})', node=call, kind='command-to-label')
+        chk.ob('DISP-command', ac, lbl.member in running_allowed, f'{lbl.member} is in Running.ALLOWED', node=call, kind='label-allowed-from-running')
         # FWD: every captured field of the command reaches the state constructor with the right star-kind
         fields = captured_fields(c.methods['__init__'])
         state_classes = by_label.get(lbl.member, [])
         chk.need(bool(state_classes), f'no state class labelled {lbl.member}')
         for st in state_classes:
             bound = bind_state_args(prog, st, call.args[1:], call.keywords)
-            st_fields = {p: k for (_, p, k) in []}
             for attr, param, kind in fields:
                 hits = [(p, e, k) for (p, e, k) in bound if norm(e) == f'{subject}.{attr}']
                 if not hits:
@@ -187,10 +176,11 @@ def run(chk: Check) -> None:
     for c in universe:
         chk.ob('DISP-command', ac, c.name in covered, f'command class {c.name} has a branch in _action_command', kind=f'covered:{c.name}',
                expr=c.name)
-    # fallthrough rejects
-    raises = else_body is not None and any(isinstance(s, ast.Raise) for s in else_body)
-    chk.ob('DISP-command', ac, raises, 'an unrecognised command raises (fallthrough of the ladder)', kind='fallthrough-raises')
-    # the state built is what is returned: the function returns the variable assigned in the branches
+    # an unrecognised command cannot complete normally: every normal exit passes one of the state-building sites
+    site_nodes = [n for n, _, _ in sites]
+    all_site_nodes = [m for _, c, _ in sites for m in ffa.cfg.nodes_containing(c)]
+    raises = bool(site_nodes) and ffa.cfg.must_pass(ffa.cfg.entry, [ffa.cfg.exit], lambda m: m in all_site_nodes, edge_ok=no_exc)
+    chk.ob('DISP-command', ac, raises, 'an unrecognised command raises (no normal return without having built a state)', kind='fallthrough-raises')
     rets = [s for s in ast.walk(ac.node) if isinstance(s, ast.Return)]
     chk.ob('DISP-command', ac, len(rets) >= 1 and all(r.value is not None for r in rets), 'returns the state built', kind='returns-state')
 
@@ -201,26 +191,44 @@ def run(chk: Check) -> None:
            and [(k.arg, norm(k.value)) for k in run_calls[0].keywords] == [(None, 'self.kwargs')],
            'the step function is called as run_fn(*self.args, **self.kwargs)', node=run_calls[0] if run_calls else ex.node,
            kind='run-fn-call')
-    stops = [c for c in calls_in_func(ex, 'Stop')]
-    shapes = sorted((norm(c.args[0]) if c.args else '', norm(c.args[1]) if len(c.args) > 1 else '') for c in stops)
-    chk.ob('DISP-command', ex, ('result', 'True') in shapes, 'a plain return value becomes Stop(value, True)', kind='wrap-plain')
-    chk.ob('DISP-command', ex, ('result.result', 'False') in shapes, 'UnsuccessfulResult becomes Stop(result.result, False)',
-           kind='wrap-unsuccessful')
-    # wrapping applies only to non-Command values
-    wrap_tests = [n for n in ast.walk(ex.node) if isinstance(n, ast.If) and 'isinstance(result, Command)' in norm(n.test)]
-    chk.ob('DISP-command', ex, bool(wrap_tests) and norm(wrap_tests[0].test) == 'not isinstance(result, Command)',
-           'only values that are not commands are wrapped', kind='wrap-guard')
-    uns = [n for n in ast.walk(ex.node) if isinstance(n, ast.If) and 'UnsuccessfulResult' in norm(n.test)]
-    ok_uns = False
-    for n in uns:
-        body_calls = [c for s in n.body for c in ast.walk(s) if isinstance(c, ast.Call) and last_name(c) == 'Stop']
-        else_calls = [c for s in n.orelse for c in ast.walk(s) if isinstance(c, ast.Call) and last_name(c) == 'Stop']
-        ok_uns = (len(body_calls) == 1 and norm(body_calls[0].args[1]) == 'False'
-                  and len(else_calls) == 1 and norm(else_calls[0].args[1]) == 'True')
-    chk.ob('DISP-command', ex, ok_uns, 'the unsuccessful wrapper is chosen exactly for UnsuccessfulResult values', kind='wrap-branches')
-    disp = calls_in_func(ex, '_action_command')
-    chk.ob('DISP-command', ex, len(disp) == 1, 'the command is dispatched through _action_command exactly once', kind='dispatch-once')
+    ffe = chk.ctx.facts.analyse(ex)
+    aw = [n for n in ast.walk(ex.node) if isinstance(n, ast.Assign) and isinstance(n.value, ast.Await) and run_calls and n.value.value is run_calls[0]
+          and isinstance(n.targets[0], ast.Name)]
+    rvar = aw[0].targets[0].id if len(aw) == 1 else 'result'
+    stop_sites = dispatch_sites(ffe, lambda c: last_name(c) == 'Stop')
+    plain = [(n, c) for n, c, _ in stop_sites if len(c.args) == 2 and norm(c.args[1]) == 'True']
+    unsucc = [(n, c) for n, c, _ in stop_sites if len(c.args) == 2 and norm(c.args[1]) == 'False']
+    chk.ob('DISP-command', ex, len(stop_sites) == len(plain) + len(unsucc) and bool(plain) and bool(unsucc), 'results are wrapped as Stop(value, True) or Stop(code, False)', kind='wrap-shapes')
 
+    def wrapped_var(c: ast.Call) -> str:
+        a = c.args[0]
+        return a.value.id if isinstance(a, ast.Attribute) and isinstance(a.value, ast.Name) and a.attr == 'result' else (a.id if isinstance(a, ast.Name) else '')
+
+    ok_plain = bool(plain)
+    for n, c in plain:
+        v = wrapped_var(c)
+        fs = ffe.at_call(n, c)
+        ok_plain &= isinstance(c.args[0], ast.Name) and ('F', f'isinstance({v}, Command)') in fs and any(
+            a[0] == 'F' and a[1].startswith(f'isinstance({v}, ') and a[1].endswith('UnsuccessfulResult)') for a in fs)
+    chk.ob('DISP-command', ex, ok_plain, 'a plain return value (not a command, not an UnsuccessfulResult) becomes Stop(value, True)', kind='wrap-plain')
+    ok_uns = bool(unsucc)
+    for n, c in unsucc:
+        v = wrapped_var(c)
+        fs = ffe.at_call(n, c)
+        ok_uns &= isinstance(c.args[0], ast.Attribute) and any(a[0] == 'isinst' and a[1] == v and a[2].endswith('UnsuccessfulResult') for a in fs) and (
+            'F', f'isinstance({v}, Command)') in fs
+    chk.ob('DISP-command', ex, ok_uns, 'an UnsuccessfulResult becomes Stop(result.result, False)', kind='wrap-unsuccessful')
+    # what is wrapped is the value the step function returned
+    ok_src = all(wrapped_var(c) == rvar or Resolver(ex).text(ast.Name(id=wrapped_var(c), ctx=ast.Load())) == rvar for _, c in plain + unsucc)
+    chk.ob('DISP-command', ex, ok_src, 'what is wrapped is the value the step function returned', kind='wrap-source')
+    cfge = ffe.cfg
+    disp = [n for n in cfge.nodes if any(isinstance(c, ast.Call) and last_name(c) == '_action_command' for c in (walk_shallow(n.expr()) if n.expr() is not None else []))]
+    exc_nodes = [n for n in cfge.nodes if any(isinstance(c, ast.Call) and repr(calls.state_ctor_label(ex, c)) == 'ProcessState.EXCEPTED'
+                                              for c in (walk_shallow(n.expr()) if n.expr() is not None else []))]
+    ok = bool(disp) and cfge.must_pass(cfge.entry, [cfge.exit], lambda m: m in disp or m in exc_nodes, edge_ok=no_exc)
+    twice = any(o.id in cfge.reachable([d], edge_ok=no_exc) for d in disp for o in disp)
+    chk.ob('DISP-command', ex, ok and not twice, 'every normal completion of the running step dispatches its command through _action_command exactly once '
+           '(or returns the EXCEPTED state)', kind='dispatch-once')
     # Created.execute / Waiting.execute produce RUNNING with the stored payload
     ce = prog.func('process_states.Created.execute')
     cc = [c for c in calls_in_func(ce) if calls.state_ctor_label(ce, c) is not None]
@@ -248,44 +256,65 @@ def run(chk: Check) -> None:
 
 
 def resume_value_forwarding(chk: Check, rule: str) -> None:
-    """Waiting.execute: produces RUNNING with the stored continuation; the resume value is forwarded iff not NULL."""
+    """Waiting.execute: produces RUNNING with the stored continuation; the resume value is forwarded iff not NULL.
+
+    Each ``create_state(RUNNING, ...)`` site is expanded into *virtual calls*: a starred argument that resolves to a
+    conditional expression of tuples (``*(() if v == NULL else (v,))``) yields one virtual call per branch, carrying the
+    branch condition as extra facts.  A virtual call without the value must know ``v == NULL``; one with it ``v != NULL``."""
+    from ..rules import Resolver
     prog = chk.prog
     calls = chk.ctx.calls
     we = prog.func('process_states.Waiting.execute')
+    ff = chk.ctx.facts.analyse(we)
+    res = Resolver(we)
     wc = [c for c in calls_in_func(we) if calls.state_ctor_label(we, c) is not None]
     labels = {repr(calls.state_ctor_label(we, c)) for c in wc}
-    chk.ob(rule, we, labels == {'ProcessState.RUNNING'} and len(wc) >= 1, 'WAITING executes into RUNNING',
-           kind='waiting-to-running')
-    shapes = sorted(tuple(norm(a) for a in c.args[1:]) for c in wc)
-    chk.ob(rule, we, all(s and s[0] == 'self.done_callback' for s in shapes),
-           'the continuation stored in the WAITING state is what runs next', kind='waiting-callback')
-    # the resume value is forwarded iff it is not NULL
-    cfg = cfg_of(we)
-    null_tests = [n for n in cfg.nodes if n.kind == 'test' and 'NULL' in norm(n.ast.test)]
-    ok_null = False
-    if null_tests:
-        t = null_tests[0]
-        test = norm(t.ast.test)
-        var = test.split(' ')[0]
-        eq = '==' in test or ' is NULL' in test
-        with_val = [c for c in wc if len(c.args) == 3 and norm(c.args[2]) == var]
-        without = [c for c in wc if len(c.args) == 2]
-        if with_val and without:
-            # which branch holds which call
-            def in_branch(label, call):
-                starts = [s for s, l in t.succ if l == label]
-                ids = cfg.reachable(starts, include_src=True,
-                                    avoid=lambda n: n.kind == 'test' and n is not t and False)
-                return any(n.id in ids for n in cfg.nodes_containing(call))
-            null_branch = 'true' if eq else 'false'
-            val_branch = 'false' if eq else 'true'
-            # each call must be reachable only from its own branch
-            ok_null = (in_branch(null_branch, without[0]) and not in_branch(val_branch, without[0])
-                       and in_branch(val_branch, with_val[0]) and not in_branch(null_branch, with_val[0]))
-            # the tested variable is the awaited waiting future
-            aw = [n for n in ast.walk(we.node) if isinstance(n, ast.Assign) and isinstance(n.value, ast.Await)
-                  and norm(n.value.value) == 'self._waiting_future' and norm(n.targets[0]) == var]
-            ok_null = ok_null and bool(aw)
+    chk.ob(rule, we, labels == {'ProcessState.RUNNING'} and len(wc) >= 1, 'WAITING executes into RUNNING', kind='waiting-to-running')
+    # the awaited value
+    aw = [n for n in ast.walk(we.node) if isinstance(n, ast.Assign) and isinstance(n.value, ast.Await) and ff.canon.key(n.value.value) == 'self._waiting_future'
+          and isinstance(n.targets[0], ast.Name)]
+    var = aw[0].targets[0].id if len(aw) == 1 else None
+    chk.ob(rule, we, var is not None, 'the value the waiting future resolves to is kept', kind='awaited-value-kept')
+    virtual = []
+    for c in wc:
+        nodes = ff.cfg.nodes_containing(c)
+        base = frozenset.intersection(*[ff.at(n) for n in nodes]) if nodes else frozenset()
+        fixed: list = []
+        variants = [(frozenset(), [])]
+        for a in c.args[1:]:
+            if isinstance(a, ast.Starred):
+                v = res.expand(a.value)
+                if isinstance(v, ast.IfExp) and isinstance(v.body, ast.Tuple) and isinstance(v.orelse, ast.Tuple):
+                    new = []
+                    for atoms, args in variants:
+                        new.append((atoms | frozenset(ff.cond_atoms(v.test, True)), args + [norm(e) for e in v.body.elts]))
+                        new.append((atoms | frozenset(ff.cond_atoms(v.test, False)), args + [norm(e) for e in v.orelse.elts]))
+                    variants = new
+                    continue
+                if isinstance(v, ast.Tuple):
+                    variants = [(atoms, args + [norm(e) for e in v.elts]) for atoms, args in variants]
+                    continue
+                variants = [(atoms, args + ['*' + norm(a.value)]) for atoms, args in variants]
+            else:
+                variants = [(atoms, args + [norm(a)]) for atoms, args in variants]
+        for atoms, args in variants:
+            virtual.append((base | atoms, args, c))
+    ok_cb = bool(virtual) and all(args and args[0] == 'self.done_callback' for _, args, _ in virtual)
+    chk.ob(rule, we, ok_cb, 'the continuation stored in the WAITING state is what runs next', kind='waiting-callback')
+    ok_null = var is not None and bool(virtual)
+    shapes = set()
+    if var is not None:
+        same = ('same', *sorted(['NULL', var]))
+        differ = ('differ', *sorted(['NULL', var]))
+        for facts, args, c in virtual:
+            if len(args) == 1:
+                shapes.add('without')
+                ok_null &= same in facts
+            elif len(args) == 2 and args[1] == var:
+                shapes.add('with')
+                ok_null &= differ in facts
+            else:
+                ok_null = False
+        ok_null &= shapes == {'with', 'without'}
     chk.ob(rule, we, ok_null, 'resume value forwarded to the continuation exactly when it is not NULL '
            '(f(v) after resume(v), f() after resume())', kind='resume-value-forwarded')
-
